@@ -19,6 +19,7 @@
 (* Independently of acceptance the formulas of the property are evaluated  *)
 (* BY TLC ON THE OBSERVED END STATE of every run (PropReport).             *)
 (* Output (JSON tuples):  ["acc", tid]   ["at", tid, l]   ["viol", tid, <<names>>]  ["dev", tid, <<names>>] *)
+(*                        ["byst", tid, {tensors backed by ANOTHER file that are invalid / unreadable}]     *)
 (***************************************************************************)
 EXTENDS AtomicSave, Json, IOUtils
 
@@ -31,16 +32,17 @@ allvars == <<vars, tvars>>
 
 SeqToSet(s) == {s[i] : i \in DOMAIN s}
 T == Traces[tid]
-TCfg(tr) == LET b == SeqToSet(tr.cfg.backed) IN
-            [nt |-> tr.cfg.nt, nc |-> tr.cfg.nc, dest |-> tr.cfg.dest, backed |-> b,
+TCfg(tr) == LET b == SeqToSet(tr.cfg.backed)
+                o == SeqToSet(tr.cfg.other) IN
+            [nt |-> tr.cfg.nt, nc |-> tr.cfg.nc, dest |-> tr.cfg.dest, backed |-> b, other |-> o,
              par |-> tr.cfg.par, shard |-> tr.cfg.shard, pre |-> SeqToSet(tr.cfg.pre), lim |-> tr.cfg.lim,
-             sh |-> ShardAssign(tr.cfg.nt, tr.cfg.nc, b, tr.cfg.shard, tr.cfg.lim)]   \* the spec computes the shards
+             sh |-> ShardAssign(tr.cfg.nt, tr.cfg.nc, b \cup o, tr.cfg.shard, tr.cfg.lim)]   \* the spec computes the shards
 Vis == SeqToSet(T.vis)
 
 EndObs(tr) == [files |-> tr.end.files, modes |-> tr.end.modes, link |-> tr.end.link, tdir |-> tr.end.tdir,
                tfile |-> [k |-> tr.end.tfile.k, sz |-> tr.end.tfile.sz,
                           ch |-> {<<x[1], x[2]>> : x \in SeqToSet(tr.end.tfile.ch)}],
-               out |-> tr.end.out, invalid |-> SeqToSet(tr.end.invalid),
+               out |-> tr.end.out, invalid |-> SeqToSet(tr.end.invalid), ofile |-> tr.end.ofile,
                prodFail |-> tr.end.prodFail, cleanupFail |-> tr.end.cleanupFail]
 
 TInit == /\ tid \in 1..Len(Traces)
@@ -71,7 +73,7 @@ Silent ==
 
 Match(o) ==
   /\ Obs.files = o.files /\ Obs.modes = o.modes /\ Obs.link = o.link
-  /\ Obs.tdir = o.tdir /\ Obs.tfile = o.tfile /\ Obs.out = o.out
+  /\ Obs.tdir = o.tdir /\ Obs.tfile = o.tfile /\ Obs.out = o.out /\ Obs.ofile = o.ofile
   /\ (o.out # "crashed" => Obs.invalid = o.invalid)
 
 Finish ==
@@ -99,8 +101,9 @@ PropReport ==
          \* a tensor that still claims valid() but cannot be read back counts as not valid any more
          o == [EndObs(T) EXCEPT !.invalid = @ \cup SeqToSet(T.end.unusable)] IN
        /\ (Names(c, o) # <<>> => PrintT(ToJson(<<"viol", tid, Names(c, o)>>)))
+       /\ (~P_BystandersKept(c, o) => PrintT(ToJson(<<"byst", tid, o.invalid \ c.backed>>)))
        /\ (Devs(c, o) # <<>> => PrintT(ToJson(<<"dev", tid, Devs(c, o)>>)))
 
 (* while a run conforms the model state is a state of the design: its invariants hold *)
-MechOK == TypeOK /\ OldOrNew /\ InvalidateOnlyIfReplaced /\ ShardNeverOverwrites
+MechOK == TypeOK /\ OldOrNew /\ InvalidateOnlyIfReplaced /\ ShardNeverOverwrites /\ BystandersUntouched
 =============================================================================
